@@ -106,9 +106,18 @@ def accumulateCols (st : Option Acc) (cols : List (List Rat)) : Acc :=
     sum := List.zipWith (· + ·) st0.sum (cols.map List.sum)
     sumsq := List.zipWith (· + ·) st0.sumsq (cols.map sumSq) }
 
-/-- `MeanVarianceNormalization.accumulate(x)` for a non-negative `dim`. -/
+/-- `x.transpose(0, dim).unsqueeze(-1).flatten(1).size(1)`: the number of frames of one call, the
+product of all extents but the `dim`-th — whatever the extent of `dim` itself is. -/
+def frameCount (x : Tensor) (dim : Nat) : Nat := prod (x.shape.eraseIdx dim)
+
+/-- `MeanVarianceNormalization.accumulate(x)` for a non-negative `dim`.  With at least one
+coefficient the frames are counted on the columns (`accumulateCols`); with NO coefficient
+(`x.size(dim) = 0`) there is no column to count them on, but the code still adds `x.size(1)` to
+`count` and keeps empty `sum` / `sumsq` (audit: the first model counted 0 there, so `store`
+raised where the code writes empty statistics). -/
 def accumulate (st : Option Acc) (x : Tensor) (dim : Nat) : Acc :=
-  accumulateCols st (columns x dim)
+  let a := accumulateCols st (columns x dim)
+  if x.shape.getD dim 1 = 0 then { a with count := (st.map (·.count)).getD 0 + frameCount x dim } else a
 
 /-- `store(bessel)` at the variance level: `(mean, var)` with `std = sqrt(var)` in the code.
 `none` = `RuntimeError("Too few accumulated statistics")`. -/
@@ -349,9 +358,9 @@ def assembleDeltas (xtShape : List Nat) (D td dm : Nat) (concatenate : Bool) (or
     y.reshape (s.take dm ++ [s.getD dm 1 * s.getD (dm + 1) 1] ++ s.drop (dm + 2))
   else y
 
-/-- `feat_deltas` after the argument checks (`td`, `dm` normalised, `filters` built): transpose
-time to the end, flatten to rows, pad and convolve every row, re-assemble. -/
-def featDeltasCore (x : Tensor) (td dm : Nat) (concatenate : Bool) (order w : Nat) (mode : PadMode)
+/-- The row-by-row part of `feat_deltas`: transpose time to the end, flatten to rows, pad and
+convolve every row, re-assemble.  An error shows up here only through a row (`deltaRow`). -/
+def featDeltasRows (x : Tensor) (td dm : Nat) (concatenate : Bool) (order w : Nat) (mode : PadMode)
     (filters : List (List Rat)) : Option Tensor :=
   let D := x.shape.length
   let xt := x.transpose td (D - 1)
@@ -359,6 +368,19 @@ def featDeltasCore (x : Tensor) (td dm : Nat) (concatenate : Bool) (order w : Na
   let nrows := xt.numel / (if T = 0 then 1 else T)
   let rows := rowsOf T xt.data (if T = 0 then 0 else nrows)
   (rows.mapM (deltaRow mode order w filters)).map (assembleDeltas xt.shape D td dm concatenate order)
+
+/-- `feat_deltas` after the argument checks (`td`, `dm` normalised, `filters` built).
+`torch.nn.functional.pad` and `conv1d` look at the SHAPE `(rows, 1, T)` of the flattened input, not
+at its content: a padding the mode forbids for `T` frames is rejected even when there is no row at
+all (another axis has extent 0), and a time axis of extent 0 is always rejected (`conv1d`: the
+padded length `2·width·order` is shorter than the filter; `replicate`/`reflect` `pad` reject it
+before that).  (Audit: the first version of the model raised only through a row, i.e. returned an
+empty tensor in both situations; the real code raises `RuntimeError`.) -/
+def featDeltasCore (x : Tensor) (td dm : Nat) (concatenate : Bool) (order w : Nat) (mode : PadMode)
+    (filters : List (List Rat)) : Option Tensor :=
+  let T := x.shape.getD td 1
+  if T = 0 ∨ !(padLegal mode (w * order) T) then none
+  else featDeltasRows x td dm concatenate order w mode filters
 
 /-- `feat_deltas(x, dim, time_dim, concatenate, order, width, pad_mode, value)`.
 `none` = `RuntimeError`. -/
